@@ -1259,7 +1259,8 @@ static int write_triple_quoted(void *context, const UChar *text, int32_t line1_l
 
     SET_LAST_COLUMN(context, last_column + last_line_length + 3);
 
-    return (nchars >= (line1_length + 6)) ? CIF_OK : CIF_ERROR;
+    /* line1_length already accounts for the opening delimiter */
+    return (nchars >= (line1_length + 3)) ? CIF_OK : CIF_ERROR;
 }
 
 static int write_numb(void *context, cif_value_tp *numb_value) {
